@@ -473,6 +473,9 @@ func (w *c12World) checkGitIndex(c *fw.Ctx, b []byte, path string, seqNames []st
 	c.Eval()
 	feat := c12Feature(p, b)
 	c.Class("git->go-git/" + feat)
+	if len(seqNames) >= 2 {
+		c.Sample(map[string]any{"direction": "git->go-git", "git_operations": seqNames, "features": feat, "index_bytes": len(b)})
+	}
 	ix, err := c12Decode(b, hs)
 	if err != nil {
 		kind := "error"
@@ -793,6 +796,7 @@ func (w *c12World) checkGoGitIndex(c *fw.Ctx, version uint32, specs []c12Spec, p
 	}
 	c.Eval()
 	c.Class("go-git->git/" + feat)
+	c.Sample(map[string]any{"direction": "go-git->git", "version": version, "entries": c12ShortSpecs(specs), "features": feat})
 	fail := func(key, what string) {
 		c.Fail(key, fmt.Sprintf("%s (index version %d, entries %v, %s)", what, version, c12ShortSpecs(specs), w.of),
 			map[string]any{"version": version, "specs": c12ShortSpecs(specs), "object_format": w.of})
